@@ -524,22 +524,140 @@ impl DynamicBitfield {
     @*/
 }
 
+impl FixedBitfield {
+    /*@ fn src/bitfield/fixed.rs FixedBitfield::index_of
+    tags: C08 C01
+    result: r
+    requires:
+        position <= 32768
+    ensures:
+        r is Some ==> position <= r->Some_0 < 32768 && self.bit(r->Some_0 as int) == value && forall|j: int| position <= j < r->Some_0 ==> self.bit(j) != value,
+        r is None ==> forall|j: int| position <= j < 32768 ==> self.bit(j) != value
+    sub `(?m)\((.*?)\.\.(.*?)\)\.find\(\|&i\| (.*?)\)$` => `{ let ghost vp_p = |i: u32| self.bit(i as int) == value; let vp_res = vp_find_up(\1, \2, |i: u32| -> (vp_r: bool) requires i < 32768 ensures vp_r == (self.bit(i as int) == value) { \3 }, Ghost(vp_p)); proof { assert forall|j: int| position <= j < 32768 && (vp_res is None || j < vp_res->Some_0) implies self.bit(j) != value by { let ju = j as u32; assert(!vp_p(ju)); } } vp_res }`
+    @*/
+    /*@ fn src/bitfield/fixed.rs FixedBitfield::last_index_of
+    tags: C08 C01
+    result: r
+    requires:
+        position < 32768
+    ensures:
+        r is Some ==> r->Some_0 <= position && self.bit(r->Some_0 as int) == value && forall|j: int| r->Some_0 < j <= position ==> self.bit(j) != value,
+        r is None ==> forall|j: int| 0 <= j <= position ==> self.bit(j) != value
+    sub `(?m)\((.*?)\.\.(.*?)\)\.rev\(\)\.find\(\|&i\| (.*?)\)$` => `{ let ghost vp_p = |i: u32| self.bit(i as int) == value; let vp_res = vp_find_down(\1, \2, |i: u32| -> (vp_r: bool) requires i < 32768 ensures vp_r == (self.bit(i as int) == value) { \3 }, Ghost(vp_p)); proof { assert forall|j: int| 0 <= j <= position && (vp_res is None || j > vp_res->Some_0) implies self.bit(j) != value by { let ju = j as u32; assert(!vp_p(ju)); } } vp_res }`
+    @*/
+}
+
 impl DynamicBitfield {
-    // ASSUMED (iterator adapters with closures are outside the Verus subset; checked natively, bounded): search for a held block
-    #[verifier::external_body]
-    pub fn index_of(&self, value: bool, position: u64) -> (r: Option<u64>)
-        requires self.wf(), value
-        ensures
-            r is Some ==> r->Some_0 >= position && self.bit(r->Some_0 as int) && forall|j: int| position <= j < r->Some_0 ==> !(#[trigger] self.bit(j)),
-            r is None ==> forall|j: int| position <= j ==> !(#[trigger] self.bit(j))
-    { unimplemented!() }
-    #[verifier::external_body]
-    pub fn last_index_of(&self, value: bool, position: u64) -> (r: Option<u64>)
-        requires self.wf(), value
-        ensures
-            r is Some ==> r->Some_0 <= position && self.bit(r->Some_0 as int) && forall|j: int| r->Some_0 < j <= position ==> !(#[trigger] self.bit(j)),
-            r is None ==> forall|j: int| 0 <= j <= position ==> !(#[trigger] self.bit(j))
-    { unimplemented!() }
+    /// no held block on the pages strictly between two page indices
+    pub open spec fn pages_empty(&self, lo: int, hi: int) -> bool { forall|j: int| lo * 32768 <= j < hi * 32768 ==> !(#[trigger] self.bit(j)) }
+
+    /*@ fn src/bitfield/dynamic.rs DynamicBitfield::index_of ; refcell noisolation
+    tags: C08 C01
+    result: r
+    requires:
+        self.wf(), value, position <= 0x4000_0000_0000_0000
+    ensures:
+        // the first held block at or after `position`
+        r is Some ==> r->Some_0 >= position && self.bit(r->Some_0 as int) && forall|j: int| position <= j < r->Some_0 ==> !(#[trigger] self.bit(j)),
+        r is None ==> forall|j: int| position <= j ==> !(#[trigger] self.bit(j))
+    sub `(?s)let mut keys: Vec<&u64> = self\.pages\.keys\(\)\.filter\(\|key\| \*\*key > first_page\)\.collect\(\);\s*keys\.sort\(\);` => `let keys: Vec<u64> = intmap::vp_sorted_keys_gt(&self.pages, first_page);`
+    sub `for key in keys \{` => `let mut vp_i: usize = 0; while vp_i < keys.len() { let key = &keys[vp_i]; vp_i += 1;`
+    sub `Some\(key \* ` => `Some(*key * `
+    after `let first_index =`:
+        assert(position & 32767 == position % 32768) by (bit_vector);
+    before `let mut vp_i: usize = 0;`:
+        // the rest of the page of `position` holds nothing
+        assert forall|j: int| position <= j < (first_page + 1) * 32768 implies !(#[trigger] self.bit(j)) by { assert(j / 32768 == first_page); }
+    loop 1:
+        invariant
+            vp_i <= keys@.len(),
+            forall|t: int, jj: int| 0 <= t < vp_i && 0 <= jj < 32768 ==> !(#[trigger] self.pages@[keys@[t]].bit(jj))
+        decreases keys@.len() - vp_i
+    loop 2:
+        decreases 0int
+    before `return Some(*key * DYNAMIC_BITFIELD_PAGE_SIZE as u64 + index as u64);`:
+        proof {
+            let rr = *key * 32768 + index;
+            assert(rr / 32768 == *key && rr % 32768 == index);
+            assert forall|j: int| position <= j < rr implies !(#[trigger] self.bit(j)) by {
+                let pg = (j / 32768) as u64;
+                if pg > first_page && pg < *key && self.pages@.contains_key(pg) {
+                    assert(keys@.contains(pg));
+                    let t = choose|t: int| 0 <= t < keys@.len() && keys@[t] == pg;
+                    if t > vp_i - 1 { assert(keys@[vp_i - 1] < keys@[t]); }
+                    assert(t < vp_i - 1);
+                    assert(!self.pages@[keys@[t]].bit(j % 32768));
+                }
+            }
+        }
+    before `} else {`#1:
+        proof {
+            if value {
+                assert forall|j: int| position <= j implies !(#[trigger] self.bit(j)) by {
+                    let pg = (j / 32768) as u64;
+                    if j <= u64::MAX && pg > first_page && self.pages@.contains_key(pg) {
+                        assert(keys@.contains(pg));
+                        let t = choose|t: int| 0 <= t < keys@.len() && keys@[t] == pg;
+                        assert(!self.pages@[keys@[t]].bit(j % 32768));
+                    }
+                }
+            }
+        }
+    @*/
+
+    /*@ fn src/bitfield/dynamic.rs DynamicBitfield::last_index_of ; refcell noisolation
+    tags: C08 C01
+    result: r
+    requires:
+        self.wf(), value, position <= 0x4000_0000_0000_0000
+    ensures:
+        // the last held block at or before `position`
+        r is Some ==> r->Some_0 <= position && self.bit(r->Some_0 as int) && forall|j: int| r->Some_0 < j <= position ==> !(#[trigger] self.bit(j)),
+        r is None ==> forall|j: int| 0 <= j <= position ==> !(#[trigger] self.bit(j))
+    sub `(?s)let mut keys: Vec<&u64> = self\.pages\.keys\(\)\.filter\(\|key\| \*\*key < last_page\)\.collect\(\);\s*keys\.sort\(\);\s*keys\.reverse\(\);` => `let keys: Vec<u64> = intmap::vp_sorted_keys_lt_desc(&self.pages, last_page);`
+    sub `for key in keys \{` => `let mut vp_i: usize = 0; while vp_i < keys.len() { let key = &keys[vp_i]; vp_i += 1;`
+    sub `Some\(key \* ` => `Some(*key * `
+    after `let last_index =`:
+        assert(position & 32767 == position % 32768) by (bit_vector);
+    before `let mut vp_i: usize = 0;`:
+        // the page of `position` holds nothing at or before it
+        assert forall|j: int| last_page * 32768 <= j <= position implies !(#[trigger] self.bit(j)) by { assert(j / 32768 == last_page); }
+    loop 1:
+        invariant
+            vp_i <= keys@.len(),
+            forall|t: int, jj: int| 0 <= t < vp_i && 0 <= jj < 32768 ==> !(#[trigger] self.pages@[keys@[t]].bit(jj))
+        decreases keys@.len() - vp_i
+    loop 2:
+        decreases 0int
+    before `return Some(*key * DYNAMIC_BITFIELD_PAGE_SIZE as u64 + index as u64);`:
+        proof {
+            let rr = *key * 32768 + index;
+            assert(rr / 32768 == *key && rr % 32768 == index);
+            assert forall|j: int| rr < j <= position implies !(#[trigger] self.bit(j)) by {
+                let pg = (j / 32768) as u64;
+                if pg < last_page && pg > *key && self.pages@.contains_key(pg) {
+                    assert(keys@.contains(pg));
+                    let t = choose|t: int| 0 <= t < keys@.len() && keys@[t] == pg;
+                    if t > vp_i - 1 { assert(keys@[vp_i - 1] > keys@[t]); }
+                    assert(t < vp_i - 1);
+                    assert(!self.pages@[keys@[t]].bit(j % 32768));
+                }
+            }
+        }
+    before `} else {`#1:
+        proof {
+            if value {
+                assert forall|j: int| 0 <= j <= position implies !(#[trigger] self.bit(j)) by {
+                    let pg = (j / 32768) as u64;
+                    if pg < last_page && self.pages@.contains_key(pg) {
+                        assert(keys@.contains(pg));
+                        let t = choose|t: int| 0 <= t < keys@.len() && keys@[t] == pg;
+                        assert(!self.pages@[keys@[t]].bit(j % 32768));
+                    }
+                }
+            }
+        }
+    @*/
 }
 
 pub proof fn lemma_push_contains<T>(s: Seq<T>, x: T)
